@@ -12,7 +12,7 @@ use crate::sodium as na;
 const IDS: [u64; 9] = [0, 1, 2, 255, 256, 0xffff_ffff, 0x1_0000_0000, 1 << 63, u64::MAX];
 
 pub fn run(cx: &mut Ctx) {
-    let reps = cx.tier.pick(1usize, 2, 40);
+    let reps = cx.tier.pick(1usize, 2, 600);
     let mut idx = 0u64;
     let ctxs: Vec<(&str, [u8; 8])> = vec![("zeros", [0u8; 8]), ("ff", [0xff; 8]), ("ascii", *b"Examples"), ("random", [0; 8])];
     let keys: Vec<(&str, [u8; 32])> = vec![("random", [0; 32]), ("zeros", [0u8; 32]), ("ff", [0xff; 32])];
